@@ -5,6 +5,7 @@ import (
 	"fmt"
 	sharedConfig "lunar/shared-model/config"
 	"lunar/toolkit-core/urltree"
+	"strings"
 
 	"github.com/rs/zerolog/log"
 )
@@ -21,15 +22,18 @@ func BuildEndpointPolicyTree(
 	endpoints []sharedConfig.EndpointConfig,
 ) (*EndpointPolicyTree, error) {
 	endpointPolicyTree := newEndpointPolicyTree()
+	// Policy maps by declared URL: an endpoint is merged only into the map of its
+	// OWN URL, never into the map of another pattern that happens to match it.
+	policiesByURL := map[string]*map[urltree.Method]EndpointPolicy{}
 	for _, endpoint := range endpoints {
 		err := checkForDuplicates(endpointPolicyTree, endpoint)
 		if err != nil {
 			return nil, err
 		}
 		var endpointPolicy *map[urltree.Method]EndpointPolicy
-		existingEndpointPolicy := endpointPolicyTree.Lookup(endpoint.URL)
-		if existingEndpointPolicy.Value != nil {
-			existingPolicy := *existingEndpointPolicy.Value
+		urlKey := strings.Trim(endpoint.URL, "./")
+		if existingEndpointPolicy, found := policiesByURL[urlKey]; found {
+			existingPolicy := *existingEndpointPolicy
 			existingPolicy[urltree.Method(endpoint.Method)] = EndpointPolicy{
 				URL:       endpoint.URL,
 				Remedies:  endpoint.Remedies,
@@ -54,6 +58,7 @@ func BuildEndpointPolicyTree(
 			), err)
 			return nil, joinedErr
 		}
+		policiesByURL[urlKey] = endpointPolicy
 	}
 	return endpointPolicyTree, nil
 }
